@@ -12,6 +12,18 @@ CLAIMED = {
             '§4 C06', 'TLC; AsmEncode.tla as the reading of the ISA operand sets'),
     'C07': ('enc', 'TLC exhaustive check of the %hi/%lo theorem on limbs (all 4096 low parts x upper classes; thorough: all 2^20 upper parts) + TLC trace validation of relocate_hi/lo and of decoded lui/auipc+addi/lw/sw/jalr pairs emitted for literals, constants, labels and %position, compression off and on',
             '§4 C07', 'TLC; HiLoOps.tla; RV32Dec/RVCDec'),
+    'C03': ('layout', 'TLC enumerates every well-formed program of <= N items over alphabets of labels, (in)compressible instructions, branches, jal, j/call/tail, li, aligns, data and one gap per distance class (real constants: +-254/256, +-2046/2048, +-4094/4096, +-1 MiB, beyond); each is assembled by the real assembler in both modes with per-line byte recording and TLC (AsmRef) recomputes label offsets from the emitted sizes, decodes every control transfer and checks it lands on its label and that the reported label table is exact',
+            '§4 C03', 'TLC; AsmRef/RV32Dec/RVCDec; the harness renders one item per line and groups emitted Blobs by line'),
+    'C04': ('layout', 'same program spaces plus the literal-instruction space around every RVC operand-set boundary (LitSpace): TLC decodes every 16-bit instruction of the -c output, expands it per the RVC chapter and compares its meaning (registers, immediate, target label) with the source item; data bytes compared across modes',
+            '§4 C04', 'TLC; AsmRef (SemNorm: add rd,x0,rs == addi rd,rs,0 is the only semantic identification)'),
+    'C08': ('layout', 'TLC-enumerated programs over an alphabet of label-valued operands (%offset, %position, bare labels, %hi/%lo of %position, li with label values, dw / pack data words) placed before/after labels across aligns, compressible code and shrinking pseudo-instructions; TLC evaluates each expression on the final layout recomputed from emitted sizes and compares with the decoded immediate / data word',
+            '§4 C08', 'TLC; AsmRef!ExprVal; HiLoOps'),
+    'C09': ('layout', 'TLC-enumerated item sequences with align N (N in 1,2,3,4,5,7,8,9,16) at every residue (1/2/3-byte data), several aligns in a row, both modes: in-order concatenation, instruction sizes 2/4, data sizes, minimal all-zero padding judged by TLC from the recorded per-line chunks',
+            '§4 C09', 'TLC; AsmRef'),
+    'C12': ('layout', 'every enumerated program (control, values, far, literal-boundary spaces) is assembled in both modes; TLC reports CompressKeepsSuccess whenever the run without -c succeeded and the run with -c did not',
+            '§4 C12', 'TLC; LayoutTrace!Rel'),
+    'C20': ('layout', 'eligibility computed by TLC from the RVC DECODER over all 65,536 halfwords (independent of the assembler\'s criteria table); every literal instruction around every RVC operand-set boundary (LitSpace, ~25k instructions) and in-context programs must be 16-bit when eligible; NotLonger / LabelsNotLater / per-item never longer on all enumerated programs',
+            '§4 C20', 'TLC; RVCDec!Expand'),
     'C18': ('dfu', 'TLC exhaustive model checking of the host (shaped like dfu.cli_main) composed with a DfuSe device over all lengths, busy/poll-delay schedules, start states and failing operations within small constants (+ liveness under fairness, + named deviations that each invariant must catch); every exported TLC behaviour replayed into the real dfu.cli_main(); TLC trace validation (DfuTrace) of ~2000 recorded real runs (4 flash variants, boundary/swept lengths, random timing) in which TLC recomputes the flash from the requests',
             '§4 C18', 'TLC; DfuDevice.tla as the reading of DFU 1.1/DfuSe; fake usb module + patched time.sleep record faithfully'),
     'C19': ('dfu', 'same model and trace validation as C18 with every oversize class and every single / double device-error injection at every erase / write step; clauses OversizeRefusedBeforeAnyDnload and ErrorNeverAnnouncedDone judged by TLC on every recorded run',
@@ -54,6 +66,8 @@ def main():
         'engines': [
             {'name': 'enc', 'path': 'harness/engines/enc.py', 'serves_properties': ['C01', 'C02', 'C06', 'C07'],
              'kind_free_text': 'TLA+ decoders/contract (RV32Dec, RVCDec, AsmEncode, HiLoOps) + TLC model checking + TLC trace validation of recorded encoder results'},
+            {'name': 'layout', 'path': 'harness/engines/layout.py', 'serves_properties': ['C03', 'C04', 'C08', 'C09', 'C12', 'C20'],
+             'kind_free_text': 'TLC enumerates abstract programs (AsmProgs, LitSpace); the real assembler is run on their rendering in both modes; TLC validates the recorded per-line bytes and label tables against the reference semantics (AsmRef, LayoutTrace)'},
             {'name': 'dfu', 'path': 'harness/engines/dfu.py', 'serves_properties': ['C18', 'C19'],
              'kind_free_text': 'TLA+ host+device model (Dfu, DfuDevice) checked exhaustively by TLC; real dfu.cli_main() run in-process against a simulated usb device; recorded request/sleep traces validated by TLC (DfuTrace)'},
         ],
